@@ -28,3 +28,10 @@ package types
 
 //@ func (sk StakingKeeper).GetValidatorSet() (vs)
 //@ trusted
+
+// Delegate(subtractAccount = false) adds the tokens to the validator and the delegation; coins move only between
+// the two staking pools (when the token source and the validator's status differ), never from or to other accounts.
+//@ func (sk StakingKeeper).Delegate(ctx, delAddr, bondAmt, tokenSrc, validator, subtractAccount) (newShares, err)
+//@ trusted
+//@ modifies staking.*, bank.bal
+//@ ensures [only_pool_accounts_touched] forall a addr :: a != module("bonded_tokens_pool") && a != module("not_bonded_tokens_pool") ==> bank.bal[a] == old(bank.bal[a])
